@@ -56,9 +56,10 @@ def main(argv):
     mod = importlib.import_module("vlib.props." + pid.lower())
     t0 = time.time()
     if a.replay:
-        from . import replay
+        from . import replay, kreplay
         case = json.load(open(a.replay))
-        res = replay.run(case["cases"] if "cases" in case else [case])
+        cs = case["cases"] if "cases" in case else [case]
+        res = [(kreplay.run([c])[0] if str(c.get("api", "")).startswith("k_") else replay.run([c])[0]) for c in cs]
         print(json.dumps({"case": case, "result": res}, indent=1))
         bad = mod.judge_replay(case, res) if hasattr(mod, "judge_replay") else None
         if bad:
